@@ -136,6 +136,8 @@ type Run struct {
 	SkipRest bool
 	// Step is the index of the main step being executed (-1 outside).
 	Step int
+	// SubStep is the index of the sub-channel step being executed (-1 outside).
+	SubStep int
 }
 
 type decision struct {
@@ -160,7 +162,7 @@ func isTimeout(err error) bool {
 
 // New prepares a world for the scenario.
 func New(rng *rand.Rand, sc Scenario) *Run {
-	r := &Run{Sc: sc, pending: map[string][]decision{}, Step: -1}
+	r := &Run{Sc: sc, pending: map[string][]decision{}, Step: -1, SubStep: -1}
 	r.W = party.NewWorld(rng, sc.Assets, sc.Noise)
 	r.P[0], r.P[1] = r.W.NewParty("A", 1000), r.W.NewParty("B", 1000)
 	for i := range r.P {
@@ -346,10 +348,15 @@ func (r *Run) subChannel() bool {
 	if r.SkipRest {
 		return true
 	}
-	for _, st := range sub.Steps {
+	for i, st := range sub.Steps {
+		r.SubStep = i
 		r.pay(r.SubCh, st, false)
+		r.SubStep = -1
 		if r.Failed != "" {
 			return false
+		}
+		if r.SkipRest {
+			return true
 		}
 	}
 	r.hook("after-sub-steps")
